@@ -14,6 +14,9 @@
  *                   8 ec_point_twin_mult_bp / ec_point_twin_mult
  *   C02_TINY_MASK   bit i set: run synthetic curve i      C02_REAL_MASK  same for built-in curve i
  *   C02_REAL_TABLE  path of the expected-points file
+ *   C02_TWIN_FULL   0: twin multiplication over the alphabets only (the FXP_UNKPT cross builds)
+ *   C02_PROBE       unknown-point multiplication: four cases per curve only (used for the build in which
+ *                   every call overruns its on-stack table, see NOTES.md F4)
  *
  * Determinism: liblcb leaves bn_t digits above `digits` uninitialised by design and (defects found
  * by this check) sometimes reads uninitialised stack memory.  So that a case behaves the same in the
@@ -37,6 +40,9 @@
 #endif
 #ifndef C02_REAL_MASK
 #define C02_REAL_MASK 0xFFFFFFFFu
+#endif
+#ifndef C02_TWIN_FULL
+#define C02_TWIN_FULL 1	/* every (k1,k2,Q) on the two smallest groups */
 #endif
 /* The fill byte: non-zero, odd, high bit set (so garbage looks like a big odd number / a huge
  * capacity).  0xF1 rather than e.g. 0xA5 for a practical reason: with garbage = 5 (mod 8) the
@@ -69,6 +75,13 @@
  * algorithm is not keyed like a finding in another one.  Window bits / digit width go to the case text. */
 static char TGT_SETUP[96], TGT_ADD[96], TGT_SUB[96], TGT_DBL[96], TGT_UNK[96], TGT_BP[96], TGT_TWINBP[128], TGT_TWIN[96], TGT_VALIDATE[96];
 static char CFG_TEXT[160];
+/* The table types of the unknown-point algorithms are dimensioned with EC_PF_FXP_MULT_WIN_BITS; a build
+ * whose unknown-point window is wider is a different situation (NOTES.md F4) and gets its own target. */
+#if (EC_PF_UNKPT_MULT_ALGO >= EC_PF_UNKPT_MULT_ALGO_SLIDING_WIN) && (EC_PF_UNKPT_MULT_WIN_BITS > EC_PF_FXP_MULT_WIN_BITS)
+#define UNK_WIDER "[unk_w>fxp_w]"
+#else
+#define UNK_WIDER ""
+#endif
 static void
 names_init(void) {
 	snprintf(TGT_SETUP, sizeof(TGT_SETUP), "ecdsa_curve_from_str/%s:%s", CFG_COORDS, ALG_NAME(EC_PF_FXP_MULT_ALGO));
@@ -76,11 +89,11 @@ names_init(void) {
 	snprintf(TGT_ADD, sizeof(TGT_ADD), "ec_point_add/%s", CFG_COORDS);
 	snprintf(TGT_SUB, sizeof(TGT_SUB), "ec_point_sub/%s", CFG_COORDS);
 	snprintf(TGT_DBL, sizeof(TGT_DBL), "ec_point_add(P,P)/%s", CFG_COORDS);
-	snprintf(TGT_UNK, sizeof(TGT_UNK), "ec_point_unknown_pt_mult/%s:%s", CFG_COORDS, ALG_NAME(EC_PF_UNKPT_MULT_ALGO));
+	snprintf(TGT_UNK, sizeof(TGT_UNK), "ec_point_unknown_pt_mult/%s:%s%s", CFG_COORDS, ALG_NAME(EC_PF_UNKPT_MULT_ALGO), UNK_WIDER);
 	snprintf(TGT_BP, sizeof(TGT_BP), "ec_point_mult_bp/%s:%s", CFG_COORDS, ALG_NAME(EC_PF_FXP_MULT_ALGO));
 #if EC_PF_TWIN_MULT_ALGO == EC_PF_TWIN_MULT_ALGO_FXP_UNKPT
-	snprintf(TGT_TWINBP, sizeof(TGT_TWINBP), "ec_point_twin_mult_bp/%s:fxp_unkpt(%s,%s)", CFG_COORDS,
-	    ALG_NAME(EC_PF_FXP_MULT_ALGO), ALG_NAME(EC_PF_UNKPT_MULT_ALGO));
+	snprintf(TGT_TWINBP, sizeof(TGT_TWINBP), "ec_point_twin_mult_bp/%s:fxp_unkpt(%s,%s)%s", CFG_COORDS,
+	    ALG_NAME(EC_PF_FXP_MULT_ALGO), ALG_NAME(EC_PF_UNKPT_MULT_ALGO), UNK_WIDER);
 	snprintf(TGT_TWIN, sizeof(TGT_TWIN), "ec_point_twin_mult/%s:bin", CFG_COORDS);
 #else
 	snprintf(TGT_TWINBP, sizeof(TGT_TWINBP), "ec_point_twin_mult_bp/%s:%s", CFG_COORDS, TWIN_NAME(EC_PF_TWIN_MULT_ALGO));
@@ -457,7 +470,7 @@ tiny_add_sub_dbl(int curve_idx) {
 			for (j = 0; j < GRP_N; j ++)
 				do_add_pair(GRP[i], GRP[j], bits);
 	} else {			/* alphabet x group in both operand positions */
-		step = vh_thorough ? ((8 == curve_idx || 9 == curve_idx) ? 1 : 7) : 61;
+		step = vh_thorough ? ((8 == curve_idx) ? 1 : 7) : 61;
 		for (a = 0; a < PA_N; a ++) {
 			for (j = 0; j < (uint32_t)PA_N; j ++)
 				do_add_pair(PA[a], PA[j], bits);
@@ -515,6 +528,16 @@ tiny_unk(void) {
 	int rich = (0 == strcmp(TC->name, "t8_gen_h4_cyc") || (vh_thorough && 0 == strcmp(TC->name, "t8_m3_h4_v4")));
 	int whole_group = (rich && (UNK_TABLE_LOG2 <= 4) && (vh_thorough || UNK_TABLE_LOG2 <= 2));
 
+#ifdef C02_PROBE
+	{
+		static const uint32_t pk[] = { 2, 3, 5, 0xff };
+		mult = n_multiples(PA[1], KMAX + 1);
+		for (i = 0; i < 4; i ++)
+			unk_one(PA[1], pk[i], mult);
+		free(mult);
+		return;
+	}
+#endif
 	if (whole_group) {
 		for (i = 0; i < GRP_N; i ++) {
 			mult = n_multiples(GRP[i], KMAX + 1);
@@ -525,8 +548,10 @@ tiny_unk(void) {
 		return;
 	}
 	for (a = 0; a < PA_N; a ++) {
+		if (UNK_TABLE_LOG2 >= 8 && a >= 6)
+			break;		/* 2^9 .. 2^10 point operations per call: O, G, -G, 2G, -2G, 3G only */
 		mult = n_multiples(PA[a], KMAX + 1);
-		if (8 == TC->m) {
+		if (8 == TC->m && (UNK_TABLE_LOG2 < 8 || 1 == a)) {
 			for (k = 0; k <= KMAX; k ++)
 				unk_one(PA[a], k, mult);
 		} else {
@@ -616,7 +641,7 @@ tiny_twin(int smallest) {
 
 	G.x = TC->gx; G.y = TC->gy; G.inf = 0;
 	mg = n_multiples(G, KMAX + 1);
-	if (smallest) {			/* all (k1, k2, Q): k in [0, n], Q the whole group (quick: alphabet) */
+	if (smallest && C02_TWIN_FULL) {	/* all (k1, k2, Q): k in [0, n], Q the whole group (quick: alphabet) */
 		uint32_t cntq = vh_thorough ? GRP_N : (uint32_t)PA_N;
 		for (i = 0; i < cntq; i ++) {
 			np_t Q = vh_thorough ? GRP[i] : PA[i];
@@ -635,6 +660,10 @@ tiny_twin(int smallest) {
 		    k == n - 1 || k == n || k == n + 1 || k == (n + 1) / 2 ||
 		    k == (0xaaaaaaaau & ((1u << TC->m) - 1)) || k == (0x55555555u & ((1u << TC->m) - 1)) ||
 		    (0 == (k & (k - 1)) && k >= 32) || (0 == (k & (k + 1)) && k >= 31) || k == 0x7f80 || k == 0x80ff || k == 0xff01);
+		if (keep && !C02_TWIN_FULL)	/* cross builds: the glue is under test, a smaller alphabet */
+			keep = (k <= 3 || k == 5 || k == 8 || k >= KMAX || k == n - 1 || k == n || k == n + 1 ||
+			    k == (1u << (TC->m - 1)) || k == (1u << (TC->m - 1)) - 1 ||
+			    k == (0xaaaaaaaau & ((1u << TC->m) - 1)) || k == (0x55555555u & ((1u << TC->m) - 1)));
 		if (keep) ks[nk ++] = k;
 	}
 	for (a = 0; a < PA_N; a ++) {
